@@ -458,7 +458,7 @@ def obs_to_gallina(ob, exc, nwarn):
 # ---------------------------------------------------------------------------------------------
 # one history
 
-def run_history(ops_or_gen, length=None, rng=None, style=None, malformed=False):
+def run_history(ops_or_gen, length=None, rng=None, style=None, malformed=False, freeze_at=None):
     """Execute a history.  ops_or_gen is either a list of ops (replay) or None (generate `length`
     ops with rng).  Returns dict(ops, extras, obs, excs, warns, gallina or None, unsupported)."""
     import xgi
@@ -468,6 +468,8 @@ def run_history(ops_or_gen, length=None, rng=None, style=None, malformed=False):
     rec = {"ops": [], "extras": [], "obs": [], "excs": [], "warns": [], "unsupported": None}
     n = length if ops_or_gen is None else len(ops_or_gen)
     for i in range(n):
+        if freeze_at is not None and i == freeze_at:
+            H.freeze()
         op = gen_op(rng, H, nodes, eids, malformed) if ops_or_gen is None else ops_or_gen[i]
         extra, exc, nwarn = apply_op(H, op)
         ob = observe(H)
